@@ -1,68 +1,16 @@
 """Mutation catalogue for bin/selftest, property C15 (CoAP over TCP).
 
-The pinned tree has genuine C15 defects (notes/C15.md): an empty message is
-processed as a request, and a non-UTF-8 value in an option whose number is of
-string format escapes data_received as UnicodeDecodeError (also for options of
-signalling messages, which have number spaces of their own).  A mutation can
-only be told from them on a tree without them, so while /repo still shows the
-defective lines every entry first applies the two scaffold repairs below (in
-the scratch copy only); once /repo is repaired the anchors are gone and the
-entries consist of the mutation alone."""
-
-import os
+/repo carries the repairs of the two genuine C15 findings (2a3f3bb: empty
+message ignored; d9dc37d: UnicodeDecodeError -> UnparsableMessage in
+Options.decode); the last two mutations take them out again."""
 
 TCP = "aiocoap/transports/tcp.py"
 COMMON = "aiocoap/transports/rfc8323common.py"
-_REPO = "/repo"
-
-
-def _has(path, text):
-    try:
-        return open(os.path.join(_REPO, path)).read().count(text) == 1
-    except OSError:
-        return False
-
-
-_EMPTY_OLD = "        if msg.code == 0:\n            pass\n"
-_EMPTY_NEW = "        if msg.code == 0:\n            return\n"
-_DEC_OLD = "    msg.payload = msg.opt.decode(data[tokenoffset + tkl :])\n"
-_DEC_NEW = '''    if msg.code.is_signalling():
-        # own option number space: nothing to interpret
-        from aiocoap.optiontypes import OpaqueOption
-        from aiocoap.numbers.optionnumbers import OptionNumber
-        from aiocoap.options import _read_extended_field_value
-
-        rawdata = data[tokenoffset + tkl :]
-        number = OptionNumber(0)
-        msg.payload = b""
-        while rawdata:
-            if rawdata[0] == 0xFF:
-                msg.payload = rawdata[1:]
-                break
-            delta, length = rawdata[0] >> 4, rawdata[0] & 0x0F
-            delta, rawdata = _read_extended_field_value(delta, rawdata[1:])
-            length, rawdata = _read_extended_field_value(length, rawdata)
-            number += delta
-            if len(rawdata) < length:
-                raise error.UnparsableMessage("Option announced but absent")
-            msg.opt.add_option(OpaqueOption(number, rawdata[:length]))
-            rawdata = rawdata[length:]
-    else:
-        try:
-            msg.payload = msg.opt.decode(data[tokenoffset + tkl :])
-        except UnicodeDecodeError:
-            raise error.UnparsableMessage("Option value is not UTF-8")
-'''
-
-FIX = []
-if _has(TCP, _EMPTY_OLD):
-    FIX.append((TCP, _EMPTY_OLD, _EMPTY_NEW))
-if _has(TCP, _DEC_OLD):
-    FIX.append((TCP, _DEC_OLD, _DEC_NEW))
+OPTIONS = "aiocoap/options.py"
 
 
 def M(name, *edits):
-    return ("C15", name, FIX + list(edits))
+    return ("C15", name, list(edits))
 
 
 MUTATIONS = [
@@ -78,9 +26,9 @@ MUTATIONS = [
     M("abort-does-not-close", (TCP, "            self._send_message(abort_msg)\n            self._transport.close()\n", "            self._send_message(abort_msg)\n")),
     M("critical-csm-option-ignored", (COMMON, "                elif opt.number.is_critical():\n                    self.abort(\"Option not supported\", bad_csm_option=opt.number)\n", "                elif False:\n                    pass\n")),
     M("release-ignored", (COMMON, "                raise CloseConnection(\n                    error.RemoteServerShutdown(\"Peer released connection\")\n                )", "                pass")),
+    M("empty-message-processed", (TCP, "            # Empty messages are ignored (RFC 8323 Section 3.4)\n            return\n", "            pass\n")),
+    M("unicode-error-escapes", (OPTIONS, "            except UnicodeDecodeError as e:\n", "            except UnicodeTranslateError as e:\n")),
 ]
-if any(e[1] == _EMPTY_OLD for e in FIX) or _has(TCP, _EMPTY_NEW):
-    MUTATIONS.append(M("empty-message-processed", (TCP, _EMPTY_NEW, _EMPTY_OLD)))
 
 CONTROLS = [
     M("spool-concatenated-differently", (TCP, "        self._spool += data\n", "        self._spool = b\"\".join((self._spool, bytes(data)))\n")),
